@@ -80,12 +80,12 @@ Proof.
 Qed.
 
 Lemma sched_all_only_refused l reqs it :
-  In it (snd (sched_all A (T:=T) l reqs)) -> (exists ts p, it = KRefused ts p) \/ (exists ts p, it = KSched ts p).
+  In it (snd (sched_all A (T:=T) l reqs)) -> (exists ts p, it = KRefused ts p) \/ (exists ts sq p, it = KSched ts sq p).
 Proof.
   revert l. induction reqs as [|[ts' p'] r IH]; intros l; simpl; [intros []|].
   destruct (el_schedule A l ts' p') as [l'|].
   - specialize (IH l'). destruct (sched_all A l' r) as [l2 its]. simpl in *.
-    intros [<-|Hin]; [right; eexists; eexists; reflexivity|apply IH; exact Hin].
+    intros [<-|Hin]; [right; eexists; eexists; eexists; reflexivity|apply IH; exact Hin].
   - specialize (IH l). destruct (sched_all A l r) as [l2 its]. simpl in *.
     intros [<-|Hin]; [left; eexists; eexists; reflexivity|apply IH; exact Hin].
 Qed.
@@ -136,7 +136,7 @@ Qed.
 (* ---- one step ------------------------------------------------------------------------------ *)
 
 Definition exec_of (it : kitem) : list (nat * F * P) :=
-  match it with KExec i ts p => [(i, ts, p)] | _ => [] end.
+  match it with KExec i ts _ p => [(i, ts, p)] | _ => [] end.
 Definition execs (items : list kitem) : list (nat * F * P) := flat_map exec_of items.
 
 Lemma execs_app a b : execs (a ++ b) = execs a ++ execs b.
@@ -147,7 +147,7 @@ Lemma execs_refused l reqs : execs (snd (sched_all A (T:=T) l reqs)) = [].
 Proof.
   pose proof (sched_all_only_refused l reqs) as Hr.
   induction (snd (sched_all A l reqs)) as [|it r IH]; [reflexivity|].
-  simpl. destruct (Hr it (or_introl eq_refl)) as [[ts [p ->]]|[ts [p ->]]]; simpl; apply IH;
+  simpl. destruct (Hr it (or_introl eq_refl)) as [[ts [p ->]]|[ts [sq [p ->]]]]; simpl; apply IH;
   intros it' Hin; apply Hr; right; exact Hin.
 Qed.
 
@@ -199,7 +199,7 @@ Inductive step_spec s : kstate -> list kitem -> bool -> Prop :=
     hk_after hk h2 (k_iter s1) (ev_ts e) = (h3, aitems, raised) ->
     forall s' it b,
     (s', it, b) =
-      (let body := KExec (k_iter s1) (ev_ts e) (ev_pl e) :: map (@KUser F P T) items ++ ref ++ map (@KUser F P T) aitems in
+      (let body := KExec (k_iter s1) (ev_ts e) (ev_seq e) (ev_pl e) :: map (@KUser F P T) items ++ ref ++ map (@KUser F P T) aitems in
        if raised then (mkK l2 h3 (k_iter s1) true false true, i1 ++ body, false)
        else let s2 := mkK l2 h3 (S (k_iter s1)) true false false in
             if k_done A c s2 then let '(s3, i3) := k_finalize A hk s2 in (s3, i1 ++ body ++ i3, false)
@@ -278,7 +278,7 @@ Proof.
     { destruct (k_inited s); [injection Hi as -> _; reflexivity|].
       replace s1 with (fst (k_initialize A hk s)) by (rewrite <- Hi; reflexivity).
       unfold k_initialize. destruct (hk_init hk (k_h s)) as [[? ?] ?]. destruct (sched_all A (k_el s) l). reflexivity. }
-    assert (Hbody : execs (KExec (k_iter s1) (ev_ts e) (ev_pl e) :: map (@KUser F P T) items ++ ref ++ map (@KUser F P T) aitems)
+    assert (Hbody : execs (KExec (k_iter s1) (ev_ts e) (ev_seq e) (ev_pl e) :: map (@KUser F P T) items ++ ref ++ map (@KUser F P T) aitems)
                     = [(k_iter s, ev_ts e, ev_pl e)]).
     { simpl. rewrite !execs_app, !execs_user, Hex, Hk1. reflexivity. }
     cbv zeta in Heq.
@@ -386,7 +386,7 @@ Qed.
 (* ---- C02 for whole runs: every accepted request is executed exactly once ------------------- *)
 
 Definition key (e : event F P) : F * P := (ev_ts e, ev_pl e).
-Definition sched_of (it : kitem) : list (F * P) := match it with KSched ts p => [(ts, p)] | _ => [] end.
+Definition sched_of (it : kitem) : list (F * P) := match it with KSched ts _ p => [(ts, p)] | _ => [] end.
 Definition scheds (items : list kitem) : list (F * P) := flat_map sched_of items.
 Definition ekey (x : nat * F * P) : F * P := (snd (fst x), snd x).
 
@@ -467,7 +467,7 @@ Proof.
     pose proof (execs_refused l1 reqs) as Hex. rewrite Hsched in Hex. simpl in Hex.
     assert (Hq : Permutation (map key (el_q (k_el s1))) (key e :: map key (el_q l1))).
     { change (key e :: map key (el_q l1)) with (map key (e :: el_q l1)). apply Permutation_map, Permutation_sym. exact Hperm. }
-    set (body := KExec (k_iter s1) (ev_ts e) (ev_pl e) :: map (@KUser F P T) items ++ ref ++ map (@KUser F P T) aitems) in *.
+    set (body := KExec (k_iter s1) (ev_ts e) (ev_seq e) (ev_pl e) :: map (@KUser F P T) items ++ ref ++ map (@KUser F P T) aitems) in *.
     assert (Hbe : map ekey (execs body) = [key e]).
     { unfold body. simpl. rewrite !execs_app, !execs_user, Hex. reflexivity. }
     assert (Hbs : scheds body = scheds ref).
